@@ -71,6 +71,19 @@ def run(ctx, prog, rid):
     for need in ('add', 'onTimerTick', 'cleanup'):
         if need not in byname:
             raise AnalysisBroken('TimeoutMonitor::%s not found' % need)
+    # the ring has exactly check_times slots: one created up front plus one per iteration of the building loop (replayed for 1..4)
+    ini = byname.get('initialize')
+    if ini is not None:
+        news = [st for st in ini.stmts if st and st['k'] == 'CXXNewExpr']
+        lps = [st for st in ini.stmts if st and st['k'] == 'ForStmt' and st.get('cond') is not None and 'check_times' in {ini.stmts[x].get('n') for x in ini.walk(st['cond'])}]
+        if lps and news:
+            in_loop = [x for x in news if x['i'] in set(ini.walk(lps[0]['i']))]
+            before = [x for x in news if x not in in_loop]
+            tr = q.loop_trips(ini, lps[0], 'check_times', counts=range(1, 5))
+            ok = tr is not None and all(len(before) + tr[N][0] * len(in_loop) == N for N in tr)
+            ctx.ob(rid, '%s|ring-size' % ini.name, ok, 'initialize() builds a ring of exactly check_times slots' if ok else
+                   'the ring built for check_times = N has %s slots: a value is reported as timed out one tick %s than asked for' %
+                   ({N: len(before) + tr[N][0] * len(in_loop) for N in tr} if tr else '?', 'later/earlier'), where=ini.loc(lps[0]['i']))
     n_writes = 0
     for f in ms:
         short = f.name.split('::')[-1]
